@@ -77,11 +77,20 @@ extern void *mpt_array_set(MPT_STRUCT(array) *arr, const MPT_STRUCT(type_traits)
 		if ((buf->_size < total)
 		 || (MPT_ENUM(BufferImmutable) & flags)
 		 || (MPT_ENUM(BufferShared) & flags)) {
+			/* source may be element data of this array: elements move when buffer is replaced */
+			const uint8_t *base = (const uint8_t *) (buf + 1);
+			ssize_t own = -1;
+			if (data && ((const uint8_t *) data >= base) && ((const uint8_t *) data < (base + buf->_used))) {
+				own = (const uint8_t *) data - base;
+			}
 			/* keep existing data behind assigned range */
 			if (!(buf = buf->_vptr->detach(buf, total < buf->_used ? buf->_used : total))) {
 				return 0;
 			}
 			arr->_buf = buf;
+			if (own >= 0) {
+				data = ((const uint8_t *) (buf + 1)) + own;
+			}
 		}
 	}
 	if ((off = mpt_buffer_set(buf, traits, pos, data, len)) < 0) {
